@@ -114,6 +114,8 @@ def _first_evaluated(e: ast.AST, pred):
             return go(node.value, lambda v, n=node: setattr(n, "value", v))
         if isinstance(node, ast.YieldFrom):
             return go(node.value, lambda v, n=node: setattr(n, "value", v))
+        if isinstance(node, ast.NamedExpr):
+            return go(node.value, lambda v, n=node: setattr(n, "value", v))
         if isinstance(node, ast.Call):
             f = node.func
             # receiver of a method chain: x.m(...)  -> x evaluated first
@@ -356,6 +358,19 @@ class _Inliner:
             holder, field = st, "test"
             if isinstance(st, InlineBlock):
                 return None
+        elif isinstance(st, ast.While) and not st.orelse:
+            # `while <test with helper call>: body`  ->  `while True: <inlined>; if not <test'>: break; body`
+            probe = copy.copy(st)
+            rep = self._try_stmt(ast.If(test=st.test, body=[ast.Pass()], orelse=[], lineno=st.lineno, col_offset=st.col_offset), owner_cls)
+            if rep is None or len(rep) != 2:
+                return None
+            block, iff = rep
+            brk = ast.If(test=ast.UnaryOp(op=ast.Not(), operand=iff.test), body=[ast.Break(lineno=st.lineno, col_offset=0)], orelse=[], lineno=st.lineno, col_offset=0)
+            st.test = ast.Constant(value=True)
+            st.body = [block, brk] + st.body
+            ast.fix_missing_locations(st)
+            del probe
+            return [st]
         elif isinstance(st, (ast.For, ast.AsyncFor)):
             holder, field = st, "iter"  # evaluated once, before the loop
         elif isinstance(st, (ast.With, ast.AsyncWith)) and st.items:
@@ -504,8 +519,13 @@ def inline_package(trees: dict[str, ast.Module], keep: set[str]) -> dict:
             if n == 0:
                 break
             # remove helpers that are dead now
+            counts: dict[str, int] = {}
+            for x in ast.walk(tree):
+                nm = x.id if isinstance(x, ast.Name) else x.attr if isinstance(x, ast.Attribute) else x.value if isinstance(x, ast.Constant) and isinstance(x.value, str) else None
+                if nm is not None:
+                    counts[nm] = counts.get(nm, 0) + 1
             for key, h in helpers.items():
-                if h.inlined and _references(tree, h.node.name, h.node) - _self_refs(h.node) == 0 and not _referenced_elsewhere(trees, modname, h.node.name):
+                if h.inlined and counts.get(h.node.name, 0) - _self_refs(h.node) == 0 and not _referenced_elsewhere(trees, modname, h.node.name):
                     _remove_def(tree, h.node)
                     stats["helpers_removed"].append(f"{modname}.{(h.cls + '.') if h.cls else ''}{h.node.name}")
                 elif h.inlined:
@@ -534,20 +554,25 @@ def _self_refs(fn) -> int:
     return n
 
 
+_MENTIONS: dict[int, dict[str, set[str]]] = {}
+
+
 def _referenced_elsewhere(trees, modname: str, name: str) -> bool:
-    for mn, t in trees.items():
-        if mn == modname:
-            continue
-        for x in ast.walk(t):
-            if isinstance(x, ast.Attribute) and x.attr == name:
-                return True
-            if isinstance(x, ast.alias) and x.name == name:
-                return True
-            if isinstance(x, ast.Name) and x.id == name:
-                # imported under its own name: the ImportFrom alias above catches the import; a bare name elsewhere is a
-                # different object unless imported
-                pass
-    return False
+    """Is the name used as an attribute or imported in another module?  (index built once per package)"""
+    idx = _MENTIONS.get(id(trees))
+    if idx is None:
+        idx = {}
+        for mn, t in trees.items():
+            names: set[str] = set()
+            for x in ast.walk(t):
+                if isinstance(x, ast.Attribute):
+                    names.add(x.attr)
+                elif isinstance(x, ast.alias):
+                    names.add(x.name)
+            idx[mn] = names
+        _MENTIONS.clear()
+        _MENTIONS[id(trees)] = idx
+    return any(name in names for mn, names in idx.items() if mn != modname)
 
 
 def _remove_def(tree: ast.Module, fn) -> None:
